@@ -1,5 +1,6 @@
 import ScVerif.C10.Pipe
 import ScVerif.C10.PipeInv
+import ScVerif.C10.MergeAux
 /-!
 # C10 — property theorems, part 2: the forwarding goroutines of one subscription (`pkg/resource`)
 
@@ -407,5 +408,32 @@ theorem C10_pullid_unfixed_stalls :
   · intro mv hmv
     simp only [List.mem_cons, List.not_mem_nil, or_false] at hmv
     rcases hmv with h | h | h | h | h | h | h | h | h <;> subst h <;> rfl
+
+/-- One entry per id in the excess stage, under every schedule: `mergeCollectionExcess` finds the queued change of
+the incoming change's id, takes it out and re-queues the merged one at the back (or nothing: ADD+REMOVE), `DropExcess`
+keeps one message — so the queue never holds two changes of one item.  (This is what makes the model's "take every
+change of that id out" and the code's "take THE change of that id out" the same thing; C09 proves the same invariant
+for its view of the queue.) -/
+theorem C10_merge_queue_one_entry_per_id (p : PConfig) (sched : List PMove) (h0 : p.exQ = []) (t : Nat) :
+    cnt t (prun p sched).exQ ≤ 1 := by
+  have : ∀ (c : PConfig), (∀ t, cnt t c.exQ ≤ 1) → ∀ t, cnt t (prun c sched).exQ ≤ 1 := by
+    induction sched with
+    | nil => intro c h; exact h
+    | cons m ms ih =>
+      intro c h
+      show ∀ t, cnt t (prun (pnext c m) ms).exQ ≤ 1
+      apply ih
+      unfold pnext
+      cases hs : pstep c m with
+      | none => simpa using h
+      | some c' => simpa using uniq_step h hs
+  exact this p (fun t => by rw [h0]; simp [cnt]) t
+
+/-- non-vacuity: three changes of item 7 and one of item 3 pushed into an undrained merge stage leave one entry each -/
+example :
+    let p : PConfig := { hasEx := true, exMerge := true, hasPid := false, target := 0, fixed := true, keep := fun _ => true,
+                         fwQ := [⟨9, .add, 0⟩] }
+    (prun p [.push ⟨7, .update, 1⟩, .push ⟨3, .add, 2⟩, .push ⟨7, .remove, 3⟩, .push ⟨7, .add, 4⟩]).exQ
+      = [⟨3, .add, 2⟩, ⟨7, .replace, 4⟩] := by decide
 
 end ScVerif.C10
